@@ -151,6 +151,23 @@ def _z3_check(smt2, timeout_ms, want_model=True):
       pass
   elif r == z3.unknown:
     out['reason'] = s.reason_unknown()
+    # The solver could neither prove the obligation nor complete a model of
+    # the quantified background axioms.  If the quantifier-free hypotheses
+    # (path condition, contracts of callees, lemma instances) together with
+    # the negated goal are satisfiable, report the candidate counter-model:
+    # the verifier does not accept the obligation ("might not hold").
+    s2 = z3.Solver()
+    s2.set('timeout', int(timeout_ms))
+    s2.add(qf + [l for l in lemmas if not _has_quantifier(l, z3)] + [goal])
+    if s2.check() == z3.sat:
+      out['result'] = 'sat-candidate'
+      if want_model:
+        try:
+          m = s2.model()
+          out['model'] = {d.name(): str(m[d])[:400] for d in m.decls()
+                          if d.arity() == 0}
+        except z3.Z3Exception:
+          pass
   return out
 
 
@@ -187,8 +204,8 @@ def _work(job):
   name, smt2, timeout_ms, use_cvc5 = job
   r = _z3_check(smt2, timeout_ms)
   runs = [r]
-  if use_cvc5 == 'always' or (use_cvc5 == 'fallback'
-                              and r['result'] not in ('unsat', 'sat')):
+  if use_cvc5 == 'always' or (use_cvc5 == 'fallback' and r['result'] not in (
+      'unsat', 'sat', 'sat-candidate')):
     runs.append(_cvc5_check(smt2, timeout_ms))
   return name, runs
 
@@ -200,7 +217,7 @@ def verdict(runs):
     return 'conflict'
   if 'unsat' in res:
     return 'discharged'
-  if 'sat' in res:
+  if 'sat' in res or 'sat-candidate' in res:
     return 'failed'
   return 'undecided'
 
